@@ -275,10 +275,13 @@ def direct_interrupt_part(chk, exprs):
     skill._kill = kill_hook
     allp = []
     try:
-        combos = [(signal.SIGINT, 1, -1), (signal.SIGTERM, 3, 20), (signal.SIGINT, 2, 20)]
+        combos = [(signal.SIGINT, 1, -1, False), (signal.SIGTERM, 3, 20, False), (signal.SIGINT, 2, 20, False),
+                  # the signal arrives while the process is being started: after the fork, before the starting thread goes on
+                  (signal.SIGTERM, 2, 20, True), (signal.SIGINT, 1, -1, True)]
         if chk.tier == "thorough":
-            combos += [(sg, dp, lim) for sg in (signal.SIGINT, signal.SIGTERM) for dp in (0, 1, 2, 3) for lim in (-1, 20)]
-        for n, (sig, depth, limit) in enumerate(combos):
+            combos += [(sg, dp, lim, st) for sg in (signal.SIGINT, signal.SIGTERM) for dp in (0, 1, 2, 3) for lim in (-1, 20) for st in (False, True)]
+        o_popen = swt.Popen
+        for n, (sig, depth, limit, at_start) in enumerate(combos):
             ident = "i%d" % n
             del kills[:]
             cmd = "%s -S %s %s %s %d %d %s %s" % (core.PY, os.path.join(W, "tree.py"), W, ident, depth, 1 if depth == 3 else 2, 30.0, 60.0)
@@ -289,14 +292,25 @@ def direct_interrupt_part(chk, exprs):
                 while not os.path.exists(ready) and time.time() - t0 < 20:
                     time.sleep(0.01)
                 os.kill(os.getpid(), sig)
-            threading.Thread(target=fire, daemon=True).start()
-            case = dict(signal=sig.name, depth=depth, limit=limit)
+
+            class PopenThenSignal(subprocess.Popen):
+                def __init__(self, *a, **k):
+                    super().__init__(*a, **k)
+                    os.kill(os.getpid(), sig)        # handled by the main thread, which waits in run()
+                    time.sleep(0.4)                  # the starting thread is held up right after the fork
+            if at_start:
+                swt.Popen = PopenThenSignal
+            else:
+                threading.Thread(target=fire, daemon=True).start()
+            case = dict(signal=sig.name, depth=depth, limit=limit, signal_arrives="while the process is being started" if at_start else "while it runs")
             got = None
             try:
                 got = swt.run(cmd, None, cwd=W, shell=True, timeout=limit, stdout=subprocess.PIPE, stderr=subprocess.STDOUT)
             except KeyboardInterrupt:
                 got = "KeyboardInterrupt"
-            time.sleep(0.05)
+            finally:
+                swt.Popen = o_popen
+            time.sleep(1.0 if at_start else 0.05)
             pids = read_pids(W, ident)
             allp += [p for p, _, _ in pids]
             if got != "KeyboardInterrupt":
